@@ -1,6 +1,6 @@
 #!/usr/bin/env python3
 """Regenerates /verif/MANIFEST.json from the table below (single source of truth).
-A property is claimed when harness/<id>/main.go exists; otherwise it is listed
+A property is claimed when its table entry has "ready": true and harness/<id>/main.go exists; otherwise it is listed
 under not_applicable with the reason given here."""
 import json, os, subprocess
 ROOT = os.path.dirname(os.path.dirname(os.path.abspath(__file__)))
@@ -9,7 +9,7 @@ T = json.load(open(os.path.join(ROOT, "bin", "manifest_table.json")))
 checks, na = [], []
 for pid in sorted(T["properties"]):
     p = T["properties"][pid]
-    if os.path.exists(os.path.join(ROOT, "harness", pid.lower(), "main.go")) and not p.get("disabled"):
+    if p.get("ready") and os.path.exists(os.path.join(ROOT, "harness", pid.lower(), "main.go")):
         checks.append({
             "property_id": pid,
             "quick_cmd": f"bin/check {pid} quick",
